@@ -13,7 +13,9 @@ EXPLANATION = (
     "cgroups_)), from rankForKilling(addChildrenToCacheAndGet(candidate)) under the recursive guard, "
     "or re-resolved by (path, inode id); every rankForKilling override returns a permutation/subset "
     "of its input; control files and xattrs written derive from the same victim; (v) one invocation "
-    "stops at the first victim with a signalled process.  Provenance is decided on expression "
+    "stops at the first victim with a signalled process; (vi) no configured pattern can be empty "
+    "(an empty pattern is the root cgroup): pieces of the 'cgroup' argument are used as Util::split "
+    "produced them, or tested for emptiness, and Util::split emits no empty piece.  Provenance is decided on expression "
     "shape after substituting single-definition locals (Expander).  Not decided: that the xattr "
     "write (by path) lands on the same cgroup across a re-creation history; kernel semantics of "
     "cgroup.kill.")
@@ -74,7 +76,53 @@ def owner(prog, f):
 CHILD = r"\*param:target\.oomd_ctx\(\)\.addChildToCacheAndGet\(param:target, elem\(\*param:target\.children\([^)]*\)\)\)"
 
 
+def configured_patterns(ctx):
+    """(vi) the configured patterns are the comma-separated pieces of the 'cgroup' argument: a piece that was transformed after
+    the split (trimmed, unescaped, ...) can have become empty, and an empty pattern is the ROOT cgroup."""
+    P, cg = ctx.prog, ctx.cg
+    pc = ctx.fn1("Oomd::PluginArgParser::parseCgroup")
+    ctx.anchor(pc, "cgroupStr")
+    X = Expander(P, pc, mark_modified=True)
+    fl = Flow(P, pc, cg=cg)
+    sites = [i for i in pc.calls("emplace", "insert", "emplace_back", "push_back") if len(pc.nodes[i].get("args", [])) >= 1] + \
+            [i for i, n in enumerate(pc.nodes) if n["k"] == "construct" and "CgroupPath" in n.get("type", "") and len(n.get("args", [])) == 2 and pc.pos_of(i) is not None]
+    n = 0
+    for i in sites:
+        a = pc.nodes[i]["args"]
+        pat = a[-1]
+        t = X(pat)
+        if "split(" not in t and "cgroupStr" not in t:
+            continue
+        n += 1
+        raw = pc.text(pat)
+        verbatim = re.match(r"^elem\(Oomd::Util::split\(param:cgroupStr, 44\)\)$", t) is not None
+        guarded = has_fact(fl.guards(i), False, raw + ".empty()") or any(p is True and k in ("(0 < %s.size())" % raw, "(%s.size() > 0)" % raw) for k, p in fl.guards(i))
+        ctx.check(verbatim or guarded, "configured-pattern-never-empty:parseCgroup", "provenance + guarded_by", pc.loc(i),
+                  "each pattern is a piece of Util::split(cgroup argument, ',') as produced (non-empty by construction) or is tested for emptiness",
+                  "the pattern '%s' (= %s) was changed after the split and is not tested for emptiness: a blank piece becomes CgroupPath(fs, \"\"), the ROOT "
+                  "cgroup, which then is a kill candidate although no configured pattern names it" % (raw, t[:90]), witness_path(pc, fl, i))
+    ctx.counters["configured_pattern_sites"] = n
+    ctx.floor("configured_pattern_sites", 1, "CgroupPath constructions from the cgroup argument in parseCgroup")
+    # Util::split never emits an empty piece (so a verbatim piece is non-empty)
+    sp = ctx.fn1("Oomd::Util::split")
+    n_emit = 0
+    for g in [sp] + list(P.lambdas_in(sp)):
+        fg = Flow(P, g, cg=cg)
+        for i in g.calls("emplace_back", "push_back"):
+            if g.text(g.nodes[i].get("recv", -1)) not in ("ret",):
+                continue
+            n_emit += 1
+            gs = fg.guards(i)
+            nonempty = any(p is True and k in ("len", "(0 < len)", "(len != 0)", "(0 != len)", "(beg < end)", "(beg != end)", "(end != beg)") for k, p in gs) or \
+                any(p is False and k in ("(0 == len)", "(beg == end)", "(end == beg)", "(len == 0)") for k, p in gs)
+            ctx.check(nonempty, "split-emits-no-empty-piece", "guarded_by", g.loc(i), "Util::split emits a piece only when it is non-empty",
+                      "Util::split can emit an empty piece (guards: %s)" % sorted(gs, key=str))
+    ctx.counters["split_emit_sites"] = n_emit
+    ctx.floor("split_emit_sites", 1, "emission sites in Util::split")
+
+
 def run(ctx):
+    configured_patterns(ctx)
     # locals / parameters the rules below refer to by name (a rename makes the analysis 'broken', never a violation)
     ctx.anchor(ctx.fn1('Oomd::BaseKillPlugin::tryToKillPids'), 'pids', 'pid')
     ctx.anchor(ctx.fn1('Oomd::BaseKillPlugin::getAndTryToKillPids'), 'target', 'pids', 'line')
